@@ -33,9 +33,11 @@ def expand(run, clauses, env, dyn_cls):
     """Expand the INV token into the invariant clauses of the dynamic class of self."""
     out = []
     for c in clauses:
-        if c.text == 'INV' or c.text.startswith('INV.'):
+        if c.text == 'INV' or c.text.startswith('INV.') or c.text.startswith('INV~'):
             cls = dyn_cls
-            for ic in specmod.class_inv(run.repo, cls, c.text[4:] or None):
+            pre = c.text[4:] if c.text.startswith('INV.') else None
+            exc = c.text[4:] if c.text.startswith('INV~') else None
+            for ic in specmod.class_inv(run.repo, cls, pre, exc):
                 out.append(specmod.Clause(ic.text, ic.props or c.props, 'inv.' + (ic.name or '')))
         elif c.text.startswith('INV(') and c.text.endswith(')'):
             # INV(expr): invariant of another object
@@ -209,7 +211,9 @@ def apply_contract(run, fi, sp, env, dyn_cls):
     for d in descs:
         _mark_written(run, d)
     result = NONE
-    if sp.result:
+    if callable(sp.result):
+        result = sp.result(run, env)
+    elif sp.result:
         result = run.eng.materialise(run, sp.result, 'res_' + fi.name, allow_split=False)
     env2 = dict(env)
     env2['result'] = result
